@@ -311,7 +311,7 @@ pub fn apply(f: &mut F, op: &str) -> String {
                 fl.send_body_despite_method();
                 (F::Prepare(fl), "unit".into())
             }
-            (F::Prepare(fl), "proceed") => (F::SendRequest(fl.proceed()), "state sendRequest".into()),
+            (F::Prepare(fl), "proceed") | (F::Prepare(fl), "proceed!") => (F::SendRequest(fl.proceed()), "state sendRequest".into()),
             (F::Prepare(fl), "uri?") => {
                 let s = format!("str {}", fl.uri());
                 (F::Prepare(fl), s)
@@ -354,7 +354,7 @@ pub fn apply(f: &mut F, op: &str) -> String {
                 let b = fl.can_keep_await_100();
                 (F::Await100(fl), format!("bool {}", b))
             }
-            (F::Await100(fl), "proceed") => match fl.proceed() {
+            (F::Await100(fl), "proceed") | (F::Await100(fl), "proceed!") => match fl.proceed() {
                 Ok(Await100Result::SendBody(v)) => (F::SendBody(v), "state sendBody can=true".into()),
                 Ok(Await100Result::RecvResponse(v)) => (F::RecvResponse(v), "state recvResponse can=true".into()),
                 Err(e) => (F::Gone, format!("{} can=true", errname(&e))),
@@ -472,7 +472,7 @@ pub fn apply(f: &mut F, op: &str) -> String {
                 let s = fl.close_reason().unwrap_or("-");
                 (F::Redirect(fl), format!("str {}", s))
             }
-            (F::Redirect(fl), "proceed") => (F::Cleanup(fl.proceed()), "state cleanup can=true".into()),
+            (F::Redirect(fl), "proceed") | (F::Redirect(fl), "proceed!") => (F::Cleanup(fl.proceed()), "state cleanup can=true".into()),
             (F::Redirect(mut fl), "follow") => match fl.as_new_flow(pol(parts[1])) {
                 Ok(Some(nf)) => {
                     let s = format!("flow {} {}", nf.method(), nf.uri());
@@ -482,16 +482,22 @@ pub fn apply(f: &mut F, op: &str) -> String {
                 Err(e) => (F::Redirect(fl), errname(&e)),
             },
             (F::Redirect(mut fl), "follow2") => {
-                // as_new_flow twice on the same Redirect flow (the D11 probe); reports the second result
+                // as_new_flow twice on the same Redirect flow (the D11 probe); reports the second result and
+                // whether the first call had returned a flow (also when the second call panics)
                 let r = fl.as_new_flow(pol(parts[1]));
                 let first_some = matches!(r, Ok(Some(_)));
-                let r2 = fl.as_new_flow(pol(parts[1]));
-                let s2 = match r2 {
-                    Ok(Some(nf)) => format!("flow {} {}", nf.method(), nf.uri()),
-                    Ok(None) => "none".into(),
-                    Err(e) => errname(&e),
-                };
-                (F::Redirect(fl), format!("{} first-some={}", s2, first_some))
+                let r2 = catch_unwind(AssertUnwindSafe(|| fl.as_new_flow(pol(parts[1]))));
+                match r2 {
+                    Ok(r2) => {
+                        let s2 = match r2 {
+                            Ok(Some(nf)) => format!("flow {} {}", nf.method(), nf.uri()),
+                            Ok(None) => "none".into(),
+                            Err(e) => errname(&e),
+                        };
+                        (F::Redirect(fl), format!("{} first-some={}", s2, first_some))
+                    }
+                    Err(_) => (F::Gone, format!("fault panic first-some={}", first_some)),
+                }
             }
             (F::Cleanup(fl), "close?") => {
                 let b = fl.must_close_connection();
